@@ -185,6 +185,7 @@ func init() {
 		if err := root.ParseString(c04Schema()); err != nil {
 			panic(err)
 		}
+		c04LoadDefaults(root)
 		// the printed form must not depend on Go's map iteration order
 		ggql.Sort = true
 		defer func() { ggql.Sort = false }()
